@@ -150,6 +150,7 @@ ASSUMPTIONS = [
     "Colang 2.x: a faulted run starts from the state document the fault-free run returned before the turn of its first planned fault (the skipped turns are the same deterministic computation); confirmation runs and Colang 1.0 execute every turn",
     "a dry run in which the Colang 1.0 runtime raises `Too many events.` (safety limit of 100 events per turn) is counted as skipped",
     "the reply of a turn whose dialog or retrieval action failed is not prescribed (only that generate returns, that no unchecked LLM text is in it and that later turns are unaffected)",
+    "a conversation in which NO action fails is the degenerate instance of the statement: generate must return normally; if it raises there, that is reported as generate-raised-without-any-fault (before round 8 it was treated as a harness error, which let a dispatcher change that breaks one implementation kind pass as not-detected)",
 ]
 
 
@@ -1053,7 +1054,8 @@ def prop(case):
         if o["raised"]:
             if pipeline.EVENT_BUDGET in o["raised"]:
                 return ok(skip="v1 runtime gave up in the fault-free run: more than 100 new events in one turn (documented safety limit)", labels=["event-budget-exceeded"])
-            raise RuntimeError(f"generate raised in turn {t} of the fault-free run: {o['raised']}")
+            # the degenerate instance of the statement (no action fails at all): generate must return normally all the more
+            raise Violation("generate-raised-without-any-fault", f"v{v} turn {t} of the fault-free conversation (actions implemented as {impl_by_action(cfg)}): generate raised {o['raised'][:300]}")
     if any(e.get("verdict") == "raise" for e in dry.session.trace):
         raise RuntimeError("harness: fault in the dry run")
     sites = _sites(dry)
